@@ -84,12 +84,13 @@ def readBreak : Prog Unit := do
   let (t, v) ← readCborType
   if t ≠ tSimple ∨ v ≠ 31 then .throw .decoder else pure ()
 
-/-- the byte-copy loop of `read_string` -/
-def readN : Nat → Prog Bytes
-  | 0 => pure []
-  | n+1 => .next fun b => do
-    let r ← readN n
-    pure (b :: r)
+/-- the byte-copy loop of `read_string` (`ret.push_back(m_p[0]); m_p++` `n` times);
+    `acc` holds the bytes pushed so far, most recent first -/
+def readNAux : Nat → Bytes → Prog Bytes
+  | 0, acc => pure acc.reverse
+  | n+1, acc => .next fun b => readNAux n (b :: acc)
+
+def readN (n : Nat) : Prog Bytes := readNAux n []
 
 /-- the chunk loop of `read_string` (indefinite length) -/
 def readChunks (major : Nat) : Nat → Prog Bytes
